@@ -143,6 +143,11 @@ Proof. unfold rows_at. rewrite seq_S, fold_left_app. reflexivity. Qed.
     ratio of consecutive leading principal minors) *)
 Definition pivots_ok (D : list (list R)) : Prop := forall k, (k < length D)%nat -> ent (rows_at D k) k k <> 0.
 Definition square (D : list (list R)) : Prop := wfm (length D) D.
+(** the same as a statement about the executable pivot list (what the correspondence run measures in floating point) *)
+Lemma pivots_ok_iff D : pivots_ok D <-> Forall (fun p => p <> 0) (gj_pivots ROps D).
+Proof. unfold pivots_ok, gj_pivots. rewrite Forall_forall. split.
+  - intros H p Hp. apply in_map_iff in Hp. destruct Hp as [k [<- Hk]]. apply in_seq in Hk. apply (H k). lia.
+  - intros H k Hk. apply H. apply in_map_iff. exists k. split; [reflexivity|]. apply in_seq. lia. Qed.
 
 Section Elim.
 Variable D : list (list R).
